@@ -522,6 +522,19 @@ inline Scenario decode(Chooser& c, const Profile& pf, vf::Stats& st, bool record
             Op o;
             gen_range_op(o, pf.w_cursor > pf.w_scan ? true : (pf.w_cursor == 0 ? false : c.flip()));
             force_r2l = false;
+            if (v2 && n != 0 && c.chance(1, 3)) {
+                // the read starts exactly at K (INCLUSIVE): the exact-hit path of the first lookup races with the writer on K
+                const bool from_right = o.r2l && o.kind == OpK::Cursor;
+                if (!from_right) {
+                    o.l = K;
+                    o.le = scan_endpoint::INCLUSIVE;
+                    if (o.re != scan_endpoint::INF && o.r <= o.l) { o.re = scan_endpoint::INF; }
+                } else {
+                    o.r = K;
+                    o.re = scan_endpoint::INCLUSIVE;
+                    if (o.le != scan_endpoint::INF && o.r <= o.l) { o.le = scan_endpoint::INF; }
+                }
+            }
             s.threads[0].push_back(o);
         } else {
             switch (c.weighted({pf.w_get * 3, pf.w_put, pf.w_put_unique, pair ? pf.w_remove * 6 : pf.w_remove})) {
